@@ -59,6 +59,7 @@ func d1Rests() []string {
 	queries := []string{"query tdb:", "query tdb:j", "query tdb: where a > 0", "query tdb:zz", "query nodb:", "query tdb: where", "tdb:", "query",
 		"query tdb: limit 1", "query tdb: where a > x", "query tdb:../", "query tdb: orderby a", "query tdb: where s sameas x"}
 	queries = append(queries, notQueries...)
+	queries = append(queries, escQueries...)
 	wkeys := []string{"tdb:j1", "tdb:c1", "tdb:r1", "tdb:t1", "tdb:sec", "tdb:e0", "tdb:nx", "nodb:x", "", "tdb:", "tdb:d/x", "tdb:../x"}
 	payloads := []string{"", "J", "J{}", `J{"a":1}`, `{"a":2}`, "Jnot-json", cborA1, `{"a":"str"}`, "J[1]", `J{"a":0}`,
 		`J{"_meta":1}`, `{"b.c":1}`, `J"s"`, "\x01raw", `{"A":9}`, `{"S":"v"}`, `{"S":null}`, `{"a":null}`, `{"L":[1]}`, `{"F":1}`, `{"B":true}`,
@@ -86,6 +87,15 @@ var notQueries = []string{
 	"query tdb:n/ where not ( a exists ) and b exists",
 	"query tdb:n/ where not ( a exists or b exists ) and c exists",
 	"query tdb:n/ where b exists and not a exists",
+}
+
+// query texts with backslashes: a lone backslash at the end of the text (end of the key prefix, of a value, of a
+// clause argument), a backslash before a closing quote, at the end of a quoted key, escaped characters inside tokens
+var escQueries = []string{
+	`query tdb:x\`, `query tdb:\`, `query tdb: where a == x\`, `query tdb: where s sameas x\`,
+	`query tdb: where s sameas "x\"`, `query tdb: where s sameas "x\\"`, `query tdb: where "a\" > 0`, `query tdb: where a\ > 0`,
+	`query tdb:j\1`, `query tdb: where s sameas x\ y`, `query tdb: orderby a\`, `query tdb: limit 1\`, `query\`, `\`,
+	`query tdb: where ( a > 0 \`, `query tdb: where s in ( x, y\`,
 }
 
 func seqAlphabet(thorough bool) []tmpl {
@@ -118,6 +128,7 @@ func seqAlphabet(thorough bool) []tmpl {
 			{"sub", notQueries[0]}, {"sub", notQueries[1]}, {"sub", notQueries[2]},
 			{"qsub", notQueries[0]}, {"qsub", notQueries[2]},
 			{"create", `tdb:n/8|J{"b":1,"z":1}`}, {"update", `tdb:n/1|J{"z":2}`}, {"update", `tdb:n/4|J{"a":1,"c":1}`}, {"delete", "tdb:n/2"}, {"delete", "tdb:n/0"},
+			{"query", escQueries[0]}, {"sub", escQueries[2]}, {"qsub", escQueries[4]},
 			{"insert", `tdb:t1|{"dbKey":"other"}`}, {"insert", `tdb:t1|{"u":"v"}`}, {"insert", `tdb:t1|{"meta":{}}`},
 		}...)
 	}
@@ -749,7 +760,7 @@ func run(c *vlib.Ctx) {
 		return
 	}
 
-	c.Rule("a case is non-trivial if at least one well-formed request of the sequence reached its handler and was answered with a non-error reply (ok/done/success/notification)")
+	c.Rule("a case is non-trivial if at least one well-formed request of the sequence reached its handler and was answered with a non-error reply (ok/done/success/notification); alphabet: all byte strings up to 3 bytes, opID|cmd|rest over 3 opIDs x 11 commands x rests (keys, key|payload incl. unexported struct fields, query texts incl. prefix-not where-clauses and texts with trailing / quoted / escaping backslashes), sequences of up to 2 (thorough 3) messages, slow-consumer and failing-iterator scenarios")
 	c.Assume("replies to malformed messages are required to be exactly one error reply; the operation ID they carry is not asserted (the statement prescribes it for well-formed requests only); observed IDs are recorded in the outcome classes malformed:error/empty-opid and /own-opid")
 	c.Assume("warning replies (documented in api/database.go: error with a single record, operation continues) are accepted inside query, sub and qsub streams")
 	c.Assume("a cancel for an operation ID without a running subscription may be answered by nothing or by one error reply")
